@@ -279,7 +279,8 @@ Definition render_segs (gs : list seg) : str := join [space] (map render_seg gs)
 Definition word_ok (w : str) : bool :=
   lit_ok w && negb (is_nil w) && match w with c :: _ => is_word c | [] => false end.
 
-Definition starts_paren (e : expr) : bool := match render_e e with c :: _ => Ascii.eqb c lpar | [] => true end.
+(* the first character of e that is not white space is a parenthesis (or there is none) *)
+Definition starts_paren (e : expr) : bool := match lstrip (render_e e) with c :: _ => Ascii.eqb c lpar | [] => true end.
 
 Fixpoint wf_segs (gs : list seg) : bool :=
   match gs with
